@@ -616,7 +616,17 @@ class Library:
         def _map_err(fr, name, args, ops):
             o, f = args
             if type(o[0]) is not int:
-                raise Unsupported('map_err of symbolic Result')
+                if o.tag != 'symenum':
+                    raise Unsupported('map_err of a Result with symbolic discriminant and shared payload')
+                vm = dict(o[1])
+                if 1 in vm:
+                    I.pc.append(T.eq(64, o[0], 1))
+                    try:
+                        r = self.apply_ctor_or_fn(fr, f, [vm[1][0]])
+                    finally:
+                        I.pc.pop()
+                    vm[1] = I.mk([r])
+                return I.mk([o[0], vm], 'symenum')
             if o[0] == 1:
                 r = self.apply_ctor_or_fn(fr, f, [o[1]])
                 return I.mk([1, r], 'enum')
@@ -626,7 +636,14 @@ class Library:
         def _branch(fr, name, args, ops):
             o = args[0]
             if type(o[0]) is not int:
-                raise Unsupported('? on symbolic Result')
+                if o.tag != 'symenum':
+                    raise Unsupported('? on a Result with symbolic discriminant and shared payload')
+                vm = {}
+                if 0 in o[1]:
+                    vm[0] = o[1][0]                                            # Continue(v)
+                if 1 in o[1]:
+                    vm[1] = I.mk([I.mk([1, o[1][1][0]], 'enum')])             # Break(Err(e))
+                return I.mk([o[0], vm], 'symenum')
             if o[0] == 0:
                 return I.mk([0, o[1]], 'enum')                       # Continue(v)
             return I.mk([1, I.mk([1, o[1]], 'enum')], 'enum')         # Break(Err(e))
